@@ -66,8 +66,8 @@ func loadSet(name string) (tms20.TileMatrixSet, error) {
 	case "moved":
 		span := t.TileMatrices[0].CellSize * float64(t.TileMatrices[0].TileWidth)
 		for id, tm := range c.TileMatrices {
-			tm.PointOfOrigin[0] += span / 4
-			tm.PointOfOrigin[1] += span / 4
+			tm.PointOfOrigin[0] -= span / 4 // towards the lower left: the upper right corner of the moved set lies inside the original one
+			tm.PointOfOrigin[1] -= span / 4
 			c.TileMatrices[id] = tm
 		}
 	case "matrices-x2":
